@@ -23,7 +23,7 @@ ASSUMPTIONS = ['attribute assignment on AttributesFrozendict does not change the
                'specs whose non-callable default violates the port itself are rejected at definition time and skipped',
                'reference model written from the statement and documentation']
 REQUIRED = ['constructed', 'accepted', 'rejected', 'defaults_populated', 'callable_defaults', 'populate_defaults_false', 'dynamic_values', 'immutability_probes',
-            'caller_dict_checks', 'metamorphic/idempotent', 'metamorphic/remove_required', 'metamorphic/wrong_type', 'nested_ns_levels']
+            'caller_dict_checks', 'metamorphic/idempotent', 'metamorphic/remove_required', 'metamorphic/wrong_type', 'nested_ns_levels', 'exposed_specs', 'legacy_validators']
 BOUNDS = {'quick': '250 specs (depth<=2) x 40 inputs', 'thorough': '4000 specs (depth<=3) x 60 inputs'}
 UN = '<absent>'
 
@@ -69,7 +69,17 @@ def v_short(value, port):
     return 'too long' if isinstance(value, list) and len(value) > 1 else None
 
 
-VALIDATORS = {'v_not1': v_not1, 'nsv_no_x': nsv_no_x, 'v_short': v_short}
+def v_not1_old(value):
+    """The same rule through the older one-argument validator signature (deprecated, still supported)."""
+    return v_not1(value, None)
+
+
+def nsv_no_x_old(values):
+    return nsv_no_x(values, None)
+
+
+VALIDATORS = {'v_not1': v_not1, 'nsv_no_x': nsv_no_x, 'v_short': v_short, 'v_not1_old': v_not1_old, 'nsv_no_x_old': nsv_no_x_old}
+MODEL_VALIDATORS = {'v_not1': v_not1, 'nsv_no_x': nsv_no_x, 'v_short': v_short, 'v_not1_old': v_not1, 'nsv_no_x_old': nsv_no_x}
 CALLABLES = {'d7': d7, 'd_s': d_s}
 NAMES = ['a', 'ab', 'n', 'm', 'x']
 
@@ -121,7 +131,7 @@ def rand_port(rng):
             if val != 1:
                 attrs['default'] = ['val', val]
     if rng.random() < 0.2 and vt in (None, 'int', 'intstr'):
-        attrs['validator'] = 'v_not1'
+        attrs['validator'] = 'v_not1' if rng.random() < 0.6 else 'v_not1_old'
     if rng.random() < 0.1 and (vt or 'validator' in attrs):
         # the type / validator are set through the property setters after the port was declared (a sub class tightening an inherited
         # port): the default in place need not conform any more, which must show as soon as it is used
@@ -143,7 +153,7 @@ def rand_ns(rng, depth):
     if rng.random() < 0.25:
         attrs['populate_defaults'] = False
     if rng.random() < 0.2:
-        attrs['validator'] = 'nsv_no_x'
+        attrs['validator'] = 'nsv_no_x' if rng.random() < 0.6 else 'nsv_no_x_old'
     children = {}
     for name in rng.sample(NAMES, rng.randint(0, 3)):
         children[name] = rand_ns(rng, depth - 1) if depth > 0 and rng.random() < 0.4 else rand_port(rng)
@@ -235,6 +245,8 @@ def gen_cases(tier, seed):
             else:
                 inputs = rand_inputs(rng, spec)
             yield {'spec': spec, 'inputs': inputs, 'si': s}
+            if s % 4 == 0 and i % 2 == 0:
+                yield {'spec': spec, 'inputs': inputs, 'si': s, 'exposed': True}
 
 
 # ---------------------------------------------------------------------------------------
@@ -274,7 +286,27 @@ def build(ns, children):
 _CLS = {}
 
 
-def spec_class(spec, si):
+def spec_class(spec, si, exposed=False):
+    if exposed:
+        # the same ports arrive in the spec of another class through expose_inputs() (no namespace, nothing excluded): what is
+        # accepted and how it is parsed follows the declaration, whichever way it reached the spec
+        key = 'exposed:' + repr(spec)
+        if key in _CLS:
+            return _CLS[key]
+        base = spec_class(spec, si)
+        if isinstance(base, tuple):
+            return base
+
+        def define_exposing(cls, pspec):
+            super(cls, cls).define(pspec)
+            pspec.expose_inputs(base)
+
+        cls = type('Ex_%d' % len(_CLS), (plumpy.Process,), {})
+        cls.define = classmethod(define_exposing)
+        generated.register(cls)
+        cls.spec()
+        _CLS[key] = cls
+        return cls
     key = repr(spec)
     if key in _CLS:
         return _CLS[key]
@@ -363,7 +395,7 @@ def model_valid_ns(attrs, children, values, stats, top=False, depth=0):
             vt = a.get('valid_type')
             if vt is not None and not isinstance(v, TYPES[vt]):
                 raise Reject('port %s wrong type' % name)
-            if a.get('validator') and VALIDATORS[a['validator']](v, None) is not None:
+            if a.get('validator') and MODEL_VALIDATORS[a['validator']](v, None) is not None:
                 raise Reject('port %s validator' % name)
         else:
             model_valid_ns(d[1], d[2], {} if v is UN else v, stats, depth=depth + 1)
@@ -375,7 +407,7 @@ def model_valid_ns(attrs, children, values, stats, top=False, depth=0):
         stats['dynamic_values'] = stats.get('dynamic_values', 0) + 1
     if vt is not None and not all(_leaves_ok(x, TYPES[vt]) for x in rest.values()):
         raise Reject('dynamic value of wrong type')
-    if attrs.get('validator') and VALIDATORS[attrs['validator']](values, None) is not None:
+    if attrs.get('validator') and MODEL_VALIDATORS[attrs['validator']](values, None) is not None:
         raise Reject('namespace validator')
 
 
@@ -434,8 +466,8 @@ def _frozen_levels(inputs, children, path=''):
 def run_case(case):
     V = judges.V
     spec, inputs_desc = case['spec'], case['inputs']
-    cls = spec_class(spec, case['si'])
-    obs = {'constructed': 0, 'accepted': 0, 'rejected': 0, 'defaults_populated': 0, 'callable_defaults': 0, 'populate_defaults_false': 0,
+    cls = spec_class(spec, case['si'], exposed=bool(case.get('exposed')))
+    obs = {'exposed_specs': int(bool(case.get('exposed'))), 'legacy_validators': int('_old' in json.dumps(spec)), 'constructed': 0, 'accepted': 0, 'rejected': 0, 'defaults_populated': 0, 'callable_defaults': 0, 'populate_defaults_false': 0,
            'dynamic_values': 0, 'immutability_probes': 0, 'caller_dict_checks': 0, 'metamorphic': {}, 'nested_ns_levels': 0, 'spec_errors': 0}
     if isinstance(cls, tuple):
         obs['spec_errors'] = 1
